@@ -1,6 +1,7 @@
 import Chain33Model.Model.C18
 import Chain33Model.Proofs.C18
 import Chain33Model.Proofs.C18Comp
+import Chain33Model.Proofs.C18Branch
 /-!
 C18 — Transaction root is consistent, provable and binding.  Property theorems only.
 `β` is any hash domain, `nil` the value Go returns for "no hash", `H2` any two-to-one function
@@ -70,5 +71,67 @@ theorem computation_root_eq [DecidableEq β] (nil : β) (H2 : β → β → β) 
 /-- non-vacuity: a concrete 3-leaf list over `Nat` with a non-injective "hash". -/
 example : Computation (0 : Nat) (fun a b => 2 * a + 3 * b + 1) [5, 6, 7] 1 0
     = .ok (getMerkleRoot 0 (fun a b => 2 * a + 3 * b + 1) [5, 6, 7], false, []) := by decide
+
+/-- For every position `p` of every list of fewer than 2^32 leaves, `GetMerkleBranch` returns a
+branch (no panic) and `GetMerkleRootFromBranch` applied to it, the leaf and `p` gives the
+sequential root — which by `parallel_eq_seq` is also the parallel root for every worker count. -/
+theorem branch_verifies [DecidableEq β] (nil : β) (H2 : β → β → β) (xs : List β) (p : Nat)
+    (hp : p < xs.length) (hlen : xs.length < 2 ^ 32) :
+    ∃ b, GetMerkleBranch nil H2 xs p = .ok b ∧
+      GetMerkleRootFromBranch H2 b xs[p] p = getMerkleRoot nil H2 xs := by
+  have hne : xs ≠ [] := by intro h; rw [h] at hp; simp at hp
+  unfold GetMerkleBranch Computation
+  have h1 : xs.isEmpty = false := by cases xs <;> simp_all
+  have h2 : ¬ ((2 : Nat) < 1 ∨ 2 > 3) := by omega
+  simp only [h1, h2, Bool.false_eq_true, if_false, decide_true]
+  have hleaf : ([] ++ xs)[p]? = some xs[p] := by simp [hp]
+  obtain ⟨st, hfold, hlen32, hF⟩ := fold_branch nil H2 (p := p) (leaf := xs[p]) xs []
+    { inner := List.replicate 32 nil, branch := [], matchlevel := 0xff, mutated := false }
+    (by simpa using hlen) hleaf (by simp) (ForestB.zero 0) (fun _ => ⟨rfl, rfl⟩)
+  simp only [List.length_nil, List.nil_append] at hfold hF
+  simp only [hfold]
+  have hpos : 0 < xs.length := List.length_pos_iff.mpr hne
+  obtain ⟨q, P, B, hF', hP, hB, hget, hcnt, c1, c2⟩ := lowBit_specB nil H2 xs.length 64 0 xs.length xs hF hpos
+    (by have : (2 : Nat) ^ 32 < 2 ^ 64 := by decide
+        omega) (by simp)
+  simp only [hget]
+  have hBne : B ≠ [] := by
+    intro h; rw [h] at hB; simp at hB
+    have := Nat.two_pow_pos (lowBit xs.length 64 0); omega
+  have hPlen : P.length < 2 ^ 32 := by rw [hP, List.length_append] at hlen; omega
+  have hl32 : lowBit xs.length 64 0 ≤ 32 := by
+    by_cases h : lowBit xs.length 64 0 ≤ 32
+    · exact h
+    · have h1 : 2 ^ 33 ≤ 2 ^ lowBit xs.length 64 0 := Nat.pow_le_pow_right (by decide) (by omega)
+      have h2 : 2 ^ lowBit xs.length 64 0 ≤ (2 * q + 1) * 2 ^ lowBit xs.length 64 0 :=
+        Nat.le_mul_of_pos_left _ (by omega)
+      have : (2 : Nat) ^ 32 < 2 ^ 33 := by decide
+      omega
+  obtain ⟨st', hrun, hbr⟩ := tailLoop_branch nil H2 (p := p) (leaf := xs[p]) 34 xs.length (lowBit xs.length 64 0)
+    (top nil H2 (lowBit xs.length 64 0) B) (decide (st.matchlevel = lowBit xs.length 64 0)) st q P B
+    (by omega) hl32 hPlen hlen32 hF' hBne (by omega) rfl hcnt
+    (by intro _; rw [hB]; have := Nat.two_pow_pos (lowBit xs.length 64 0); omega)
+    (by
+      intro hm
+      have hml : st.matchlevel = lowBit xs.length 64 0 := by simpa using hm
+      have hin : InBlk p P.length (2 ^ lowBit xs.length 64 0) := by
+        by_cases h : InBlk p P.length (2 ^ lowBit xs.length 64 0)
+        · exact h
+        · exact absurd hml (c2 h)
+      rw [hB]
+      exact ⟨hin, (c1 hin).2⟩)
+    (by
+      intro hm
+      have hml : ¬ st.matchlevel = lowBit xs.length 64 0 := by simpa using hm
+      rw [hB]
+      exact fun hin => hml (c1 hin).1)
+  rw [← hP] at hrun hbr
+  simp only [hrun]
+  exact ⟨_, rfl, hbr hp⟩
+
+/-- non-vacuity: 5 leaves, position 4 (the odd one out whose branch repeats its own subtree). -/
+example : GetMerkleBranch (0 : Nat) (fun a b => 2 * a + 3 * b + 1) [5, 6, 7, 8, 9] 4 = .ok [9, 46, 176] ∧
+    GetMerkleRootFromBranch (fun a b => 2 * a + 3 * b + 1) [9, 46, 176] 9 4
+      = getMerkleRoot 0 (fun a b => 2 * a + 3 * b + 1) [5, 6, 7, 8, 9] := by decide
 
 end C18
